@@ -552,6 +552,56 @@ pub fn evasion_family(rng: &mut Rng, n: usize, out: &mut Vec<Crafted>) {
     }
 }
 
+/// Classic mates in one (also used by the engine monitors).
+pub const CLASSIC_MATES: &[&str] = &[
+    "6k1/5ppp/8/8/8/8/8/R3K3 w Q - 0 1",
+    "r1bqkb1r/pppp1ppp/2n2n2/4p2Q/2B1P3/8/PPPP1PPP/RNB1K1NR w KQkq - 4 4",
+    "6rk/6pp/7N/8/8/8/8/6K1 w - - 0 1",
+    "k7/8/1K6/8/8/8/8/7R w - - 0 1",
+    "7k/8/5K2/8/8/8/8/6Q1 w - - 0 1",
+    "5rk1/5ppp/8/8/8/8/1B6/K5R1 w - - 0 1",
+    "k7/2P5/1K6/8/8/8/8/8 w - - 0 1",
+    "7k/4P1pp/8/8/8/8/8/K4R2 w - - 0 1",
+    "8/8/8/8/8/6k1/4r3/r3K2R w K - 0 1",
+    "r3k3/8/8/8/8/8/1R6/4K2k b q - 0 1",
+    "4k3/8/8/8/8/8/5PPP/r5K1 b - - 0 1",
+    "3k4/8/3K4/8/8/8/8/R7 w - - 0 1",
+    "k1K5/8/8/8/8/8/8/1R6 w - - 0 1",
+    "kbK5/pp6/1P6/8/8/8/8/R7 w - - 0 1",
+    "2k5/8/2K5/8/8/8/8/3R3R w - - 0 1",
+    "7k/5p1p/5PpP/6P1/8/8/8/K1B5 w - - 0 1",
+    "5rk1/2q2p1p/8/8/6N1/8/1B6/K5R1 w - - 0 1",
+    "6k1/5ppp/8/8/8/8/8/R5K1 w - - 0 1",
+];
+
+/// terminal classification when the 50-move counter is at / beyond its limit: mates in one played
+/// with the half-move clock at 98, 99, 100 and 150 (mate takes precedence over the clock), and
+/// non-mating quiet moves reaching exactly 100.
+pub fn clock_terminal_family(out: &mut Vec<Crafted>) {
+    for fen in CLASSIC_MATES {
+        let Ok(base) = Position::from_fen(fen) else { continue };
+        for p0 in [base.clone(), base.mirror()] {
+            if p0.chess_root_ok().is_err() {
+                continue;
+            }
+            let mates = crate::tags::mating_moves(&p0);
+            let legal = p0.legal_moves();
+            for half in [98u32, 99, 100, 150] {
+                let mut p = p0.clone();
+                p.half = half;
+                p.full = 80;
+                for m in &mates {
+                    try_push(out, "clock-terminal", p.clone(), vec![*m]);
+                }
+                // two quiet non-mating moves as well
+                for m in legal.iter().filter(|m| !mates.contains(m) && !p.is_capture(**m)).take(2) {
+                    try_push(out, "clock-terminal", p.clone(), vec![*m]);
+                }
+            }
+        }
+    }
+}
+
 /// extremal lists (C07): many mobile pieces plus two e.p. capturers; many queens.
 pub fn extremal_family(out: &mut Vec<Crafted>) {
     let u = |s: &str| Mv::parse_uci(s).unwrap();
